@@ -7,11 +7,14 @@ def run(tier, seed):
     rep = Report("C06", tier, seed, "other")
     from .c17 import add_cons
     add_cons(rep, "C06")
+    from ..propbase import deductive
+    deductive(rep, "C06", ["markdown_it.rules_block.paragraph.paragraph", "markdown_it.rules_block.lheading.lheading", "markdown_it.rules_block.state_block.StateBlock.__init__"], "contracts.block")
     lines_universe(rep, "vf.oracles2:c06_container", tier, "MarkdownIt.parse", "quote form and list form of the law (tokens, maps, inline content, levels, references)", cfgs=["commonmark", "cm+table+strike"], wrapped=False)
     lines_universe(rep, "vf.oracles2:c06_nested", tier, "MarkdownIt.parse", "the law applied to already wrapped documents (depth 2-3)", cfgs=["commonmark"], wrapped=False)
     rep.explanation = ("Mixed. Deductive (pyvc): the anchored mechanism of the quote form - rules_block.blockquote is verified on all paths: each quoted line's tables are moved past the marker and its optional blank with the physical-column "
                        "invariant re-established (CONS), blkIndent is 0 and the tables are well formed when the nested block loop is re-run on the same line range, the opening token's map is [startLine, line'], and all five "
-                       "tables, lineMax, blkIndent, parentType and level are restored on exit. The law itself relates two runs of the whole block parser (a 2-safety property over all rules) and is "
+                       "tables, lineMax, blkIndent, parentType and level are restored on exit; paragraph and lheading consult the terminator rules on every line of indentation 0..3 relative to the container (scan semantics with the "
+                       "uninterpreted RuleFires predicate), so what interrupts a paragraph depends only on the line's relative indentation; StateBlock.__init__ establishes the column invariant. The law itself relates two runs of the whole block parser (a 2-safety property over all rules) and is "
                        "a relational postcondition on the real parse, checked over the tab-free line universe in quote form and list form (10 markers), nested to depth 3.")
     rep.trusted_base = STD_TRUST
     rep.assumptions = ["bounded: all tab-free newline-terminated documents of <= k lines over the 72-shape vocabulary"]
